@@ -452,6 +452,33 @@ fn main() {
                 ]));
             }
         }
+        // three-operand conjunctions / disjunctions in every order: operands after
+        // the first are evaluated against the survivors of the earlier ones, and
+        // limit-aware operands (_id leaves, Not) must not see the page limit
+        let mut rep3: Vec<Filter> = stride(&rep, run.tier.pick(10, 16));
+        for f in stride(&rep, 3) {
+            rep3.push(Filter::Not(Box::new(f)));
+        }
+        for a in &rep3 {
+            for b in &rep3 {
+                for c in &rep3 {
+                    level3.push(Filter::And(vec![Box::new(a.clone()), Box::new(b.clone()), Box::new(c.clone())]));
+                }
+            }
+        }
+        for a in stride(&rep3, 6) {
+            for b in stride(&rep3, 6) {
+                for c in stride(&rep3, 6) {
+                    level3.push(Filter::Or(vec![Box::new(a.clone()), Box::new(b.clone()), Box::new(c.clone())]));
+                    level3.push(Filter::And(vec![
+                        Box::new(a.clone()),
+                        Box::new(Filter::Or(vec![Box::new(b.clone()), Box::new(c.clone())])),
+                        Box::new(b.clone()),
+                        Box::new(c.clone()),
+                    ]));
+                }
+            }
+        }
         run.add("filters_depth1", level1.len() as u64);
         run.add("filters_depth2", level2.len() as u64);
         run.add("filters_depth3", level3.len() as u64);
